@@ -15,14 +15,14 @@ import (
 )
 
 type T struct {
-	S     string     // SMT term text
-	So    string     // SMT sort
-	Ty    types.Type // Go type when known (nil for ghost sorts)
-	Fresh bool       // address known to be allocated by the function under verification
-	NonNil bool      // address syntactically not nil (field/element/global address)
-	Dyn   types.Type // for interface values: dynamic type when syntactically known
-	Tup   []T        // tuple components
-	Clo   *cloInfo   // closure created on this path
+	S      string     // SMT term text
+	So     string     // SMT sort
+	Ty     types.Type // Go type when known (nil for ghost sorts)
+	Fresh  bool       // address known to be allocated by the function under verification
+	NonNil bool       // address syntactically not nil (field/element/global address)
+	Dyn    types.Type // for interface values: dynamic type when syntactically known
+	Tup    []T        // tuple components
+	Clo    *cloInfo   // closure created on this path
 }
 
 func shortHash(s string) string {
